@@ -13,7 +13,11 @@ Ltac gstep H :=
   let s1 := fresh "s" in let H1 := fresh "G" in
   apply seq_ok in H; destruct H as (s1 & H1 & H); apply guard_ok in H1; destruct H1 as [H1 ->].
 
-(* ------------------------------------------------------------------ (a) static largest product *)
+Ltac nstep H :=
+  let s1 := fresh "s" in let H1 := fresh "Nn" in
+  apply seq_ok in H; destruct H as (s1 & H1 & H); apply nest_guard_ok in H1; destruct H1 as [H1 ->].
+
+(* ------------------------------------------------------------------ (a) static largest product (STRICT) *)
 Lemma maxprod_eq tp nd :
   maxprod tp nd =
   match nd with
@@ -34,30 +38,26 @@ Section Static.
   Hypothesis Hv : is_repaired v.
   Hypothesis HL : l_loop lim = Some L.
 
-  Lemma linv_ext f : linv L f -> linv L (f_ext f).
-  Proof. intros [? ?]; split; auto. Qed.
-  Lemma linv_copy f z : linv L f -> linv L (f_copy f z).
-  Proof. intros [? ?]; split; auto. Qed.
 
   Definition ran (m : M) : Prop := exists s0 s1, m s0 = LOk s1.
 
-  Lemma block_ran body f s s' : block v lim body f s = LOk s' -> ran (exec_list v lim body f).
+  Lemma block_ran body f s s' : block v Strict lim body f s = LOk s' -> ran (exec_list v Strict lim body f).
   Proof.
     unfold block. destruct (blank_list body); intro H.
     - apply in_null_ok in H. destruct H as (s1 & H1 & _). exists (set_buf s BNull), s1. exact H1.
     - exists s, s'. exact H.
   Qed.
 
-  Lemma partial_ran body f s s' : partial v lim body f s = LOk s' -> ran (exec_list v lim body (f_ext f)).
-  Proof. unfold partial. intro H. gstep H. exists s, s'. exact H. Qed.
+  Lemma partial_ran body f s s' : partial v Strict lim body f s = LOk s' -> ran (exec_list v Strict lim body (f_ext f)).
+  Proof. unfold partial. intro H. gstep H. rewrite run_nodes_strict in H. exists s, s'. exact H. Qed.
 
   Lemma to_nat_S n : (n =? 0)%N = false -> exists m, N.to_nat n = S m.
   Proof. intro H. destruct (N.to_nat n) eqn:E; [lia|eauto]. Qed.
 
   Definition okP (nd : node) : Prop :=
-    forall f s s', linv L f -> exec v lim nd f s = LOk s' -> (maxprod (f_tp f) nd <= L)%N.
+    forall f s s', linv L f -> exec v Strict lim nd f s = LOk s' -> (maxprod (f_tp f) nd <= L)%N.
   Definition okQ (l : list node) : Prop :=
-    forall f, linv L f -> ran (exec_list v lim l f) -> (maxprod_list (f_tp f) l <= L)%N.
+    forall f, linv L f -> ran (exec_list v Strict lim l f) -> (maxprod_list (f_tp f) l <= L)%N.
 
   Theorem exec_maxprod : forall nd, okP nd.
   Proof.
@@ -78,41 +78,41 @@ Section Static.
       destruct (n =? 0)%N eqn:En; [lia|]. gstep H. step H. gstep H. step H.
       destruct (to_nat_S n En) as [m Em]. rewrite Em in H1. apply iter_first in H1. destruct H1 as (s3 & H1).
       step H1. step H1. apply block_ran in H3.
-      pose proof (linv_scale v lim L Hv HL (f_ext f) n (linv_ext f HI) G) as HI'.
+      pose proof (linv_scale v lim L Hv HL (f_ext f) n (linv_ext L f HI) G) as HI'.
       specialize (IH _ HI' H3). destruct HI' as [_ Ht]. simpl in *. lia.
     - (* Include *) intros b IH f s s' HI H. rewrite maxprod_eq. rewrite exec_eq in H.
-      gstep H. gstep H. gstep H. apply partial_ran in H.
-      apply (IH (f_ext (f_ext f))); auto using linv_ext.
+      gstep H. nstep H. gstep H. apply partial_ran in H.
+      apply (IH (f_ext (f_ext f))); auto using (linv_ext L).
     - (* IncludeArr *) intros n b IH f s s' HI H. rewrite maxprod_eq. rewrite exec_eq in H.
-      destruct (n =? 0)%N eqn:En; [lia|]. gstep H. gstep H. gstep H. gstep H.
+      destruct (n =? 0)%N eqn:En; [lia|]. gstep H. nstep H. gstep H. gstep H.
       destruct (to_nat_S n En) as [m Em]. rewrite Em in H. apply iter_first in H. destruct H as (s1 & H).
       apply partial_ran in H.
-      pose proof (linv_scale v lim L Hv HL (f_ext f) n (linv_ext f HI) G2) as HI'.
-      specialize (IH _ (linv_ext _ HI') H). destruct HI' as [_ Ht]. simpl in *. lia.
+      pose proof (linv_scale v lim L Hv HL (f_ext f) n (linv_ext L f HI) G1) as HI'.
+      specialize (IH _ (linv_ext L _ HI') H). destruct HI' as [_ Ht]. simpl in *. lia.
     - (* Render *) intros b IH f s s' HI H. rewrite maxprod_eq. rewrite exec_eq in H.
-      gstep H. gstep H. apply in_ctx_ok in H. destruct H as (s1 & H & _). apply partial_ran in H.
-      apply (IH (f_ext (f_copy f (sum_sizes (s_locals s))))); auto using linv_ext, linv_copy.
+      nstep H. gstep H. apply in_ctx_ok in H. destruct H as (s1 & H & _). apply partial_ran in H.
+      apply (IH (f_ext (f_copy f (sum_sizes (s_locals s))))); auto using (linv_ext L), (linv_copy L).
     - (* RenderFor *) intros n b IH f s s' HI H. rewrite maxprod_eq. rewrite exec_eq in H.
-      destruct (n =? 0)%N eqn:En; [lia|]. gstep H. gstep H. cbv zeta in H. gstep H.
+      destruct (n =? 0)%N eqn:En; [lia|]. nstep H. gstep H. cbv zeta in H. gstep H.
       destruct (to_nat_S n En) as [m Em]. rewrite Em in H.
-      assert (Hr : ran (exec_list v lim b (f_ext (f_scale v (f_copy f (sum_sizes (s_locals s))) n)))).
+      assert (Hr : ran (exec_list v Strict lim b (f_ext (f_scale v (f_copy f (sum_sizes (s_locals s))) n)))).
       { destruct (v_item v).
         - apply iter_first in H. destruct H as (s3 & H). apply in_ctx_ok in H. destruct H as (s4 & H & _).
           apply partial_ran in H. exact H.
         - apply in_ctx_ok in H. destruct H as (s1 & H & _). apply iter_first in H. destruct H as (s3 & H).
           apply partial_ran in H. exact H. }
       clear H. rename Hr into H.
-      pose proof (linv_scale v lim L Hv HL _ n (linv_copy f (sum_sizes (s_locals s)) HI) G1) as HI'.
-      specialize (IH _ (linv_ext _ HI') H). destruct HI' as [_ Ht]. simpl in *. lia.
+      pose proof (linv_scale v lim L Hv HL _ n (linv_copy L f (sum_sizes (s_locals s)) HI) G0) as HI'.
+      specialize (IH _ (linv_ext L _ HI') H). destruct HI' as [_ Ht]. simpl in *. lia.
     - (* Call *) intros b IH f s s' HI H. rewrite maxprod_eq. rewrite exec_eq in H.
       gstep H. apply in_ctx_ok in H. destruct H as (s1 & H & _). apply block_ran in H.
-      apply (IH (f_copy f (sum_sizes (s_locals s)))); auto using linv_copy.
+      apply (IH (f_copy f (sum_sizes (s_locals s)))); auto using (linv_copy L).
     - (* nil *) intros f _ _. simpl. lia.
     - (* cons *) intros x r IHx IHr f HI (s0 & s1 & H). rewrite exec_list_cons in H. step H.
       simpl. specialize (IHx f s0 s HI H0). specialize (IHr f HI (ex_intro _ s (ex_intro _ s1 H))). lia.
   Qed.
 
-  Theorem exec_list_maxprod l f : linv L f -> ran (exec_list v lim l f) -> (maxprod_list (f_tp f) l <= L)%N.
+  Theorem exec_list_maxprod l f : linv L f -> ran (exec_list v Strict lim l f) -> (maxprod_list (f_tp f) l <= L)%N.
   Proof.
     revert f. induction l as [|x r IH]; intros f HI (s0 & s1 & H); simpl; [lia|].
     rewrite exec_list_cons in H. step H.
@@ -121,9 +121,9 @@ Section Static.
 
   (* a completed render has no reached nest whose lengths multiply to more than the limit *)
   Theorem run_maxprod main sizes s :
-    (1 <= L)%N -> run_prog v lim main sizes = LOk s -> (maxprod_list 1 main <= L)%N.
+    (1 <= L)%N -> run_prog v Strict lim main sizes = LOk s -> (maxprod_list 1 main <= L)%N.
   Proof.
-    intros H1 H. unfold run_prog in H. destruct (nest_exceeded lim main); [discriminate|].
+    intros H1 H. unfold run_prog in H. destruct (nest_guard Strict lim main (st0 sizes)) as [s1|e s1|]; try discriminate.
     apply partial_ran in H. apply (exec_list_maxprod main (f_ext frame0)); [|exact H].
     split; [reflexivity|exact H1].
   Qed.
@@ -164,7 +164,7 @@ Section Sim.
   Definition le_run (m m' : M) : Prop :=
     forall s, match m s with
               | LOk s' => m' s = LOk s'
-              | LErr e => m' s = LErr e \/ blame a b e
+              | LErr e s' => m' s = LErr e s' \/ blame a b e
               | LFuel => m' s = LFuel
               end.
 
@@ -173,7 +173,7 @@ Section Sim.
 
   Lemma le_seq m1 m1' m2 m2' : le_run m1 m1' -> le_run m2 m2' -> le_run (seq m1 m2) (seq m1' m2').
   Proof.
-    intros H1 H2 s. unfold seq. specialize (H1 s). destruct (m1 s) as [s1|e|].
+    intros H1 H2 s. unfold seq. specialize (H1 s). destruct (m1 s) as [s1|e s1|].
     - rewrite H1. apply H2.
     - destruct H1 as [H1|H1]; [rewrite H1; left; reflexivity|right; exact H1].
     - rewrite H1. reflexivity.
@@ -193,7 +193,7 @@ Section Sim.
 
   Lemma le_in_null m m' : le_run m m' -> le_run (in_null m) (in_null m').
   Proof.
-    intros H s. unfold in_null. specialize (H (set_buf s BNull)). destruct (m _) as [s1|e|].
+    intros H s. unfold in_null. specialize (H (set_buf s BNull)). destruct (m _) as [s1|e s1|].
     - rewrite H. reflexivity.
     - destruct H as [H|H]; [rewrite H; left; reflexivity|right; exact H].
     - rewrite H. reflexivity.
@@ -201,7 +201,7 @@ Section Sim.
 
   Lemma le_in_child m m' k k' : le_run m m' -> (forall val, le_run (k val) (k' val)) -> le_run (in_child m k) (in_child m' k').
   Proof.
-    intros H Hk s. unfold in_child. specialize (H (set_buf s (child_of (s_buf s)))). destruct (m _) as [s1|e|].
+    intros H Hk s. unfold in_child. specialize (H (set_buf s (child_of (s_buf s)))). destruct (m _) as [s1|e s1|].
     - rewrite H. apply Hk.
     - destruct H as [H|H]; [rewrite H; left; reflexivity|right; exact H].
     - rewrite H. reflexivity.
@@ -209,7 +209,7 @@ Section Sim.
 
   Lemma le_in_ctx m m' : le_run m m' -> le_run (in_ctx m) (in_ctx m').
   Proof.
-    intros H s. unfold in_ctx. specialize (H (set_mut s [] [])). destruct (m _) as [s1|e|].
+    intros H s. unfold in_ctx. specialize (H (set_mut s [] [])). destruct (m _) as [s1|e s1|].
     - rewrite H. reflexivity.
     - destruct H as [H|H]; [rewrite H; left; reflexivity|right; exact H].
     - rewrite H. reflexivity.
@@ -269,20 +269,23 @@ Section Sim.
     apply le_guard; [lia|]. intros H1 H2. simpl. lia.
   Qed.
 
-  Lemma le_nest_guard body : le_run (guard (nest_exceeded a body) XNesting) (guard (nest_exceeded b body) XNesting).
+  Lemma le_nest_guard body : le_run (nest_guard Strict a body) (nest_guard Strict b body).
   Proof.
-    unfold nest_exceeded. destruct Hle as (_ & _ & _ & _ & Hn).
-    apply le_guard; [lia|]. intros H1 H2. simpl. lia.
+    intro s. unfold nest_guard, nest_exceeded. destruct Hle as (_ & _ & _ & _ & Hn). simpl.
+    destruct (_ >? l_nest a) eqn:E1, (_ >? l_nest b) eqn:E2; simpl; auto; try lia; right; lia.
   Qed.
 
-  Definition simP (nd : node) : Prop := forall f, le_run (exec v a nd f) (exec v b nd f).
-  Definition simQ (l : list node) : Prop := forall f, le_run (exec_list v a l f) (exec_list v b l f).
+  Definition simP (nd : node) : Prop := forall f, le_run (exec v Strict a nd f) (exec v Strict b nd f).
+  Definition simQ (l : list node) : Prop := forall f, le_run (exec_list v Strict a l f) (exec_list v Strict b l f).
 
-  Lemma sim_block body : simQ body -> forall f, le_run (block v a body f) (block v b body f).
+  Lemma sim_block body : simQ body -> forall f, le_run (block v Strict a body f) (block v Strict b body f).
   Proof. intros H f. unfold block. destruct (blank_list body); [apply le_in_null|]; apply H. Qed.
 
-  Lemma sim_partial body : simQ body -> forall f, le_run (partial v a body f) (partial v b body f).
-  Proof. intros H f. unfold partial. apply le_seq; [apply le_depth_guard|apply H]. Qed.
+  Lemma sim_partial body : simQ body -> forall f, le_run (partial v Strict a body f) (partial v Strict b body f).
+  Proof.
+    intros H f. unfold partial. apply le_seq; [apply le_depth_guard|].
+    intro s. rewrite !run_nodes_strict. apply H.
+  Qed.
 
   Theorem sim_exec : forall nd, simP nd.
   Proof.
@@ -308,26 +311,26 @@ Section Sim.
       apply le_seq; [apply le_loop_guard|]. apply le_iter. intro k. apply sim_partial; exact IH.
     - intros body IH f. rewrite !exec_eq.
       apply le_seq; [apply le_nest_guard|]. apply le_seq; [apply le_copy_guard|].
-      apply (le_fun (fun s0 => in_ctx (partial v a body (f_copy f (sum_sizes (s_locals s0)))))
-                    (fun s0 => in_ctx (partial v b body (f_copy f (sum_sizes (s_locals s0)))))).
+      apply (le_fun (fun s0 => in_ctx (partial v Strict a body (f_copy f (sum_sizes (s_locals s0)))))
+                    (fun s0 => in_ctx (partial v Strict b body (f_copy f (sum_sizes (s_locals s0)))))).
       intro s0. apply le_in_ctx. apply sim_partial; exact IH.
     - intros n body IH f. rewrite !exec_eq.
       apply le_seq; [apply le_nest_guard|]. apply le_seq; [apply le_copy_guard|]. cbv zeta.
       destruct (v_item v).
       + apply (le_fun (fun s0 => seq (guard (loop_exceeded v a (f_copy f (sum_sizes (s_locals s0))) n) XLoop)
-                                     (iter 1 (N.to_nat n) (fun _ => in_ctx (partial v a body (f_scale v (f_copy f (sum_sizes (s_locals s0))) n)))))
+                                     (iter 1 (N.to_nat n) (fun _ => in_ctx (partial v Strict a body (f_scale v (f_copy f (sum_sizes (s_locals s0))) n)))))
                       (fun s0 => seq (guard (loop_exceeded v b (f_copy f (sum_sizes (s_locals s0))) n) XLoop)
-                                     (iter 1 (N.to_nat n) (fun _ => in_ctx (partial v b body (f_scale v (f_copy f (sum_sizes (s_locals s0))) n)))))).
+                                     (iter 1 (N.to_nat n) (fun _ => in_ctx (partial v Strict b body (f_scale v (f_copy f (sum_sizes (s_locals s0))) n)))))).
         intro s0. apply le_seq; [apply le_loop_guard|]. apply le_iter. intro k. apply le_in_ctx. apply sim_partial; exact IH.
       + apply (le_fun (fun s0 => seq (guard (loop_exceeded v a (f_copy f (sum_sizes (s_locals s0))) n) XLoop)
-                                     (in_ctx (iter 1 (N.to_nat n) (fun _ => partial v a body (f_scale v (f_copy f (sum_sizes (s_locals s0))) n)))))
+                                     (in_ctx (iter 1 (N.to_nat n) (fun _ => partial v Strict a body (f_scale v (f_copy f (sum_sizes (s_locals s0))) n)))))
                       (fun s0 => seq (guard (loop_exceeded v b (f_copy f (sum_sizes (s_locals s0))) n) XLoop)
-                                     (in_ctx (iter 1 (N.to_nat n) (fun _ => partial v b body (f_scale v (f_copy f (sum_sizes (s_locals s0))) n)))))).
+                                     (in_ctx (iter 1 (N.to_nat n) (fun _ => partial v Strict b body (f_scale v (f_copy f (sum_sizes (s_locals s0))) n)))))).
         intro s0. apply le_seq; [apply le_loop_guard|]. apply le_in_ctx. apply le_iter. intro k. apply sim_partial; exact IH.
     - intros body IH f. rewrite !exec_eq.
       apply le_seq; [apply le_copy_guard|].
-      apply (le_fun (fun s0 => in_ctx (block v a body (f_copy f (sum_sizes (s_locals s0)))))
-                    (fun s0 => in_ctx (block v b body (f_copy f (sum_sizes (s_locals s0)))))).
+      apply (le_fun (fun s0 => in_ctx (block v Strict a body (f_copy f (sum_sizes (s_locals s0)))))
+                    (fun s0 => in_ctx (block v Strict b body (f_copy f (sum_sizes (s_locals s0)))))).
       intro s0. apply le_in_ctx. apply sim_block; exact IH.
     - intro f. apply le_ret.
     - intros x r IHx IHr f. rewrite !exec_list_cons. apply le_seq; [apply IHx|apply IHr].
@@ -341,20 +344,18 @@ Section Sim.
 
   (* whole render, including the parse-time nesting check *)
   Theorem sim_run main sizes :
-    match run_prog v a main sizes with
-    | LOk s => run_prog v b main sizes = LOk s
-    | LErr e => run_prog v b main sizes = LErr e \/ blame a b e
-    | LFuel => run_prog v b main sizes = LFuel
+    match run_prog v Strict a main sizes with
+    | LOk s => run_prog v Strict b main sizes = LOk s
+    | LErr e s => run_prog v Strict b main sizes = LErr e s \/ blame a b e
+    | LFuel => run_prog v Strict b main sizes = LFuel
     end.
   Proof.
     unfold run_prog.
-    pose proof (le_nest_guard main (st0 sizes)) as Hg. unfold guard in Hg.
-    pose proof (sim_partial main (sim_exec_list main) frame0 (st0 sizes)) as Hp.
-    destruct (nest_exceeded a main), (nest_exceeded b main); simpl in *.
-    - left; reflexivity.
-    - destruct Hg as [Hg|Hg]; [discriminate|right; exact Hg].
-    - discriminate.
-    - exact Hp.
+    pose proof (le_nest_guard main (st0 sizes)) as Hg.
+    destruct (nest_guard Strict a main (st0 sizes)) as [s1|e s1|].
+    - rewrite Hg. apply (sim_partial main (sim_exec_list main) frame0 s1).
+    - destruct Hg as [Hg|Hg]; [rewrite Hg; left; reflexivity|right; exact Hg].
+    - rewrite Hg. reflexivity.
   Qed.
 End Sim.
 
@@ -387,12 +388,12 @@ Section Consequences.
 
 (* monotone: success carries over, with the identical final state (hence output), to any pointwise larger limits *)
 Theorem run_monotone a b main sizes s :
-  lim_le a b -> run_prog v a main sizes = LOk s -> run_prog v b main sizes = LOk s.
+  lim_le a b -> run_prog v Strict a main sizes = LOk s -> run_prog v Strict b main sizes = LOk s.
 Proof. intros Hle H. pose proof (sim_run v a b Hv Hle main sizes) as S. rewrite H in S. exact S. Qed.
 
 (* abort only: ANY two configurations under which the render completes give the same final state *)
 Theorem run_abort_only a b main sizes s s' :
-  run_prog v a main sizes = LOk s -> run_prog v b main sizes = LOk s' -> s = s'.
+  run_prog v Strict a main sizes = LOk s -> run_prog v Strict b main sizes = LOk s' -> s = s'.
 Proof.
   intros Ha Hb.
   apply (run_monotone a (lim_join a b) main sizes s (lim_le_join_l a b)) in Ha.
@@ -401,8 +402,8 @@ Proof.
 Qed.
 
 (* an error under limits a, when the render completes under limits b, is a resource-limit class *)
-Theorem run_error_class a b main sizes e s :
-  run_prog v a main sizes = LErr e -> run_prog v b main sizes = LOk s -> is_limit e = true.
+Theorem run_error_class a b main sizes e se s :
+  run_prog v Strict a main sizes = LErr e se -> run_prog v Strict b main sizes = LOk s -> is_limit e = true.
 Proof.
   intros Ha Hb.
   apply (run_monotone b (lim_join a b) main sizes s (lim_le_join_r a b)) in Hb.
@@ -411,8 +412,8 @@ Proof.
 Qed.
 
 (* ... and, for comparable limits, it is the class of a limit that was actually made larger *)
-Theorem run_error_blame a b main sizes e s :
-  lim_le a b -> run_prog v a main sizes = LErr e -> run_prog v b main sizes = LOk s -> blame a b e.
+Theorem run_error_blame a b main sizes e se s :
+  lim_le a b -> run_prog v Strict a main sizes = LErr e se -> run_prog v Strict b main sizes = LOk s -> blame a b e.
 Proof.
   intros Hle Ha Hb. pose proof (sim_run v a b Hv Hle main sizes) as S. rewrite Ha in S.
   destruct S as [S|S]; [congruence|exact S].
@@ -432,15 +433,15 @@ Proof. unfold lim_le, with_out, opt_le; simpl. destruct (l_loop a), (l_out a), (
    the render under the loop limit L raises LoopIterationLimitError *)
 Theorem run_loop_raises a L main sizes s :
   l_loop a = Some L -> (1 <= L)%N ->
-  run_prog v (with_loop a None) main sizes = LOk s ->
+  run_prog v Strict (with_loop a None) main sizes = LOk s ->
   (L < maxprod_list 1 main)%N ->
-  run_prog v a main sizes = LErr XLoop.
+  exists se, run_prog v Strict a main sizes = LErr XLoop se.
 Proof.
   intros HL H1 Hu Hgt.
   pose proof (sim_run v a (with_loop a None) Hv (lim_le_with_loop a) main sizes) as S.
-  destruct (run_prog v a main sizes) as [s'|e|] eqn:E.
-  - apply (run_maxprod v a L Hv HL main sizes s' H1) in E. lia.
-  - destruct S as [S|S]; [congruence|]. destruct e; simpl in S; try congruence; try (exfalso; apply S; reflexivity); try destruct S.
+  destruct (run_prog v Strict a main sizes) as [s'|e se|] eqn:E.
+  - exfalso. apply (run_maxprod v a L Hv HL main sizes s' H1) in E. lia.
+  - destruct S as [S|S]; [congruence|]. exists se. destruct e; simpl in S; try reflexivity; try (exfalso; apply S; reflexivity); try destruct S.
   - congruence.
 Qed.
 
@@ -448,17 +449,16 @@ Qed.
    output limit L raises OutputStreamLimitError *)
 Theorem run_out_raises a L main sizes s :
   l_out a = Some L -> 0 <= L ->
-  run_prog v (with_out a None) main sizes = LOk s ->
+  run_prog v Strict (with_out a None) main sizes = LOk s ->
   L < utf8_bytes (buf_text (s_buf s)) ->
-  run_prog v a main sizes = LErr XOutput.
+  exists se, run_prog v Strict a main sizes = LErr XOutput se.
 Proof.
   intros HL H0 Hu Hgt.
   pose proof (sim_run v a (with_out a None) Hv (lim_le_with_out a) main sizes) as S.
-  destruct (run_prog v a main sizes) as [s'|e|] eqn:E.
+  destruct (run_prog v Strict a main sizes) as [s'|e se|] eqn:E.
   - assert (s' = s) by congruence. subst s'.
-    assert (Hp : forall L0, l_out a = Some L0 -> 0 <= L0) by (intros L0 H; rewrite HL in H; inversion H; subst; exact H0).
-    pose proof (run_out_bound v a Hp main sizes s L HL E). lia.
-  - destruct S as [S|S]; [congruence|]. destruct e; simpl in S; try congruence; try (exfalso; apply S; reflexivity); try destruct S.
+    exfalso. pose proof (run_out_bound v Strict a main sizes s L HL H0 E). lia.
+  - destruct S as [S|S]; [congruence|]. exists se. destruct e; simpl in S; try reflexivity; try (exfalso; apply S; reflexivity); try destruct S.
   - congruence.
 Qed.
 End Consequences.
@@ -467,7 +467,7 @@ End Consequences.
 (* if no reached nest multiplies to more than L, the loop limit L changes nothing at all: the run is the run
    without a loop limit (same result, same error, same fuel exhaustion) *)
 Section NoFalseAlarm.
-  Variables (v : variant) (a : limits) (L : N).
+  Variables (v : variant) (md : mode) (a : limits) (L : N).
   Hypothesis Hv : is_repaired v.
   Hypothesis HL : l_loop a = Some L.
   Let b := with_loop a None.
@@ -486,6 +486,8 @@ Section NoFalseAlarm.
   Proof. intros H s. unfold in_ctx. rewrite H. reflexivity. Qed.
   Lemma same_refl m : same m m.
   Proof. intro s. reflexivity. Qed.
+  Lemma same_handle m m' : same m m' -> same (handle md m) (handle md m').
+  Proof. intros H s. unfold handle. rewrite H. reflexivity. Qed.
 
   Lemma loop_guard_passes f n : linv L f -> (f_tp f * n <= L)%N -> loop_exceeded v a f n = false.
   Proof.
@@ -500,16 +502,17 @@ Section NoFalseAlarm.
   Proof. intros HI Hn s. rewrite (loop_guard_passes f n HI Hn), loop_guard_off. reflexivity. Qed.
 
   Definition nfP (nd : node) : Prop :=
-    forall f, linv L f -> (maxprod (f_tp f) nd <= L)%N -> same (exec v a nd f) (exec v b nd f).
+    forall f, linv L f -> (maxprod (f_tp f) nd <= L)%N -> same (exec v md a nd f) (exec v md b nd f).
   Definition nfQ (l : list node) : Prop :=
-    forall f, linv L f -> (maxprod_list (f_tp f) l <= L)%N -> same (exec_list v a l f) (exec_list v b l f).
+    forall f, linv L f -> (maxprod_list (f_tp f) l <= L)%N ->
+    same (exec_list v md a l f) (exec_list v md b l f) /\ same (run_nodes v md a l f) (run_nodes v md b l f).
 
   Lemma nf_block body : nfQ body -> forall f, linv L f -> (maxprod_list (f_tp f) body <= L)%N ->
-    same (block v a body f) (block v b body f).
+    same (block v md a body f) (block v md b body f).
   Proof. intros H f HI Hm. unfold block. destruct (blank_list body); [apply same_in_null|]; apply H; auto. Qed.
 
   Lemma nf_partial body : nfQ body -> forall f, linv L f -> (maxprod_list (f_tp f) body <= L)%N ->
-    same (partial v a body f) (partial v b body f).
+    same (partial v md a body f) (partial v md b body f).
   Proof.
     intros H f HI Hm. unfold partial. apply same_seq; [apply same_refl|]. apply H; [apply linv_ext; exact HI|exact Hm].
   Qed.
@@ -564,7 +567,7 @@ Section NoFalseAlarm.
         apply same_seq; [apply (same_loop_guard fc); [exact HIc|simpl; lia]|]. apply same_refl.
       + assert (Hn : (f_tp f * n <= L)%N) by lia.
         apply same_seq; [apply (same_loop_guard fc); [exact HIc|exact Hn]|].
-        assert (Hp : same (partial v a body (f_scale v fc n)) (partial v b body (f_scale v fc n))).
+        assert (Hp : same (partial v md a body (f_scale v fc n)) (partial v md b body (f_scale v fc n))).
         { apply nf_partial; [exact IH| |simpl; lia].
           apply (linv_scale v a L Hv HL fc n HIc). apply (loop_guard_passes fc n HIc Hn). }
         destruct (v_item v).
@@ -573,24 +576,130 @@ Section NoFalseAlarm.
     - intros body IH f HI Hm. rewrite maxprod_eq in Hm. rewrite !exec_eq.
       apply same_seq; [apply same_refl|].
       intro s. apply same_in_ctx. apply nf_block; [exact IH|apply linv_copy; exact HI|exact Hm].
-    - intros f _ _. apply same_refl.
-    - intros x r IHx IHr f HI Hm. simpl in Hm. rewrite !exec_list_cons.
-      apply same_seq; [apply IHx; [exact HI|lia]|apply IHr; [exact HI|lia]].
+    - intros f _ _. split; apply same_refl.
+    - intros x r IHx IHr f HI Hm. simpl in Hm. split.
+      + rewrite !exec_list_cons. apply same_seq; [apply IHx; [exact HI|lia]|apply IHr; [exact HI|lia]].
+      + rewrite !run_nodes_cons. apply same_seq; [apply same_handle; apply IHx; [exact HI|lia]|apply IHr; [exact HI|lia]].
   Qed.
 
   Lemma nf_exec_list : forall l, nfQ l.
   Proof.
-    induction l as [|x r IH]; intros f HI Hm; [apply same_refl|].
-    simpl in Hm. rewrite !exec_list_cons. apply same_seq; [apply nf_exec; [exact HI|lia]|apply IH; [exact HI|lia]].
+    induction l as [|x r IH]; intros f HI Hm; [split; apply same_refl|].
+    simpl in Hm. split.
+    - rewrite !exec_list_cons. apply same_seq; [apply nf_exec; [exact HI|lia]|apply IH; [exact HI|lia]].
+    - rewrite !run_nodes_cons. apply same_seq; [apply same_handle; apply nf_exec; [exact HI|lia]|apply IH; [exact HI|lia]].
   Qed.
 
   Theorem run_no_false_alarm main sizes :
     (1 <= L)%N -> (maxprod_list 1 main <= L)%N ->
-    run_prog v a main sizes = run_prog v b main sizes.
+    run_prog v md a main sizes = run_prog v md b main sizes.
   Proof.
     intros H1 Hm. unfold run_prog.
-    change (nest_exceeded b main) with (nest_exceeded a main).
-    destruct (nest_exceeded a main); [reflexivity|].
+    change (nest_guard md b main) with (nest_guard md a main).
+    destruct (nest_guard md a main (st0 sizes)) as [s1|e s1|]; try reflexivity.
     apply (nf_partial main (nf_exec_list main) frame0); [split; [reflexivity|exact H1]|exact Hm].
   Qed.
 End NoFalseAlarm.
+
+(* ------------------------------------------------------------------ (d) the mode only matters once an error is raised *)
+(* a render that completes in STRICT mode (no error was raised) completes identically in WARN and LAX mode *)
+Section ModeAgreement.
+  Variables (v : variant) (md : mode) (lim : limits).
+
+  Definition okle (m m' : M) : Prop := forall s s', m s = LOk s' -> m' s = LOk s'.
+
+  Lemma okle_refl m : okle m m.
+  Proof. intros s s' H. exact H. Qed.
+  Lemma okle_seq m1 m1' m2 m2' : okle m1 m1' -> okle m2 m2' -> okle (seq m1 m2) (seq m1' m2').
+  Proof.
+    intros H1 H2 s s' H. apply seq_ok in H. destruct H as (s1 & Ha & Hb).
+    unfold seq. rewrite (H1 s s1 Ha). apply H2. exact Hb.
+  Qed.
+  Lemma okle_iter body body' : (forall k, okle (body k) (body' k)) -> forall n k, okle (iter k n body) (iter k n body').
+  Proof. intros Hb. induction n as [|n IH]; intro k; simpl; [apply okle_refl|]. apply okle_seq; auto. Qed.
+  Lemma okle_in_null m m' : okle m m' -> okle (in_null m) (in_null m').
+  Proof. intros H s s' H0. apply in_null_ok in H0. destruct H0 as (s1 & H1 & ->). unfold in_null. rewrite (H _ _ H1). reflexivity. Qed.
+  Lemma okle_in_child m m' k : okle m m' -> okle (in_child m k) (in_child m' k).
+  Proof. intros H s s' H0. apply in_child_ok in H0. destruct H0 as (s1 & H1 & H2). unfold in_child. rewrite (H _ _ H1). exact H2. Qed.
+  Lemma okle_in_ctx m m' : okle m m' -> okle (in_ctx m) (in_ctx m').
+  Proof. intros H s s' H0. apply in_ctx_ok in H0. destruct H0 as (s1 & H1 & ->). unfold in_ctx. rewrite (H _ _ H1). reflexivity. Qed.
+  Lemma okle_handle m m' : okle m m' -> okle (handle Strict m) (handle md m').
+  Proof. intros H s s' H0. rewrite handle_strict in H0. unfold handle. rewrite (H _ _ H0). reflexivity. Qed.
+  Lemma okle_fun (F F' : st -> M) : (forall s0, okle (F s0) (F' s0)) -> okle (fun s => F s s) (fun s => F' s s).
+  Proof. intros H s s' H0. apply (H s s s' H0). Qed.
+  Lemma okle_nest body : okle (nest_guard Strict lim body) (nest_guard md lim body).
+  Proof. intros s s' H. apply nest_guard_ok in H. destruct H as [H ->]. unfold nest_guard. rewrite H. reflexivity. Qed.
+
+  Definition maP (nd : node) : Prop := forall f, okle (exec v Strict lim nd f) (exec v md lim nd f).
+  Definition maQ (l : list node) : Prop :=
+    forall f, okle (exec_list v Strict lim l f) (exec_list v md lim l f) /\ okle (run_nodes v Strict lim l f) (run_nodes v md lim l f).
+
+  Lemma ma_block body : maQ body -> forall f, okle (block v Strict lim body f) (block v md lim body f).
+  Proof. intros H f. unfold block. destruct (blank_list body); [apply okle_in_null|]; apply H. Qed.
+  Lemma ma_partial body : maQ body -> forall f, okle (partial v Strict lim body f) (partial v md lim body f).
+  Proof. intros H f. unfold partial. apply okle_seq; [apply okle_refl|apply H]. Qed.
+
+  Theorem ma_exec : forall nd, maP nd.
+  Proof.
+    apply (node_ind' maP maQ); unfold maP.
+    - intros t f. rewrite !exec_eq. apply okle_refl.
+    - intros x f. rewrite !exec_eq. apply okle_refl.
+    - intros x t f. rewrite !exec_eq. apply okle_refl.
+    - intros x body IH f. rewrite !exec_eq. apply okle_in_child. apply ma_block; exact IH.
+    - intros body IH f. rewrite !exec_eq. apply okle_in_child. apply ma_block; exact IH.
+    - intros n body IH f. rewrite !exec_eq. destruct (n =? 0)%N; [apply okle_refl|].
+      apply okle_seq; [apply okle_refl|]. apply okle_seq; [apply okle_refl|]. apply okle_iter. intro k. apply ma_block; exact IH.
+    - intros n body IH f. rewrite !exec_eq.
+      apply okle_seq; [apply okle_refl|]. apply okle_seq; [apply okle_refl|]. apply okle_seq; [apply okle_refl|].
+      apply okle_seq; [|apply okle_refl]. apply okle_iter. intro k.
+      apply okle_seq; [apply okle_refl|]. apply okle_seq; [apply ma_block; exact IH|apply okle_refl].
+    - intros body IH f. rewrite !exec_eq.
+      apply okle_seq; [apply okle_refl|]. apply okle_seq; [apply okle_nest|]. apply okle_seq; [apply okle_refl|].
+      apply ma_partial; exact IH.
+    - intros n body IH f. rewrite !exec_eq.
+      apply okle_seq; [apply okle_refl|]. apply okle_seq; [apply okle_nest|]. apply okle_seq; [apply okle_refl|].
+      apply okle_seq; [apply okle_refl|]. apply okle_iter. intro k. apply ma_partial; exact IH.
+    - intros body IH f. rewrite !exec_eq.
+      apply okle_seq; [apply okle_nest|]. apply okle_seq; [apply okle_refl|].
+      apply (okle_fun (fun s0 => in_ctx (partial v Strict lim body (f_copy f (sum_sizes (s_locals s0)))))
+                      (fun s0 => in_ctx (partial v md lim body (f_copy f (sum_sizes (s_locals s0)))))).
+      intro s0. apply okle_in_ctx. apply ma_partial; exact IH.
+    - intros n body IH f. rewrite !exec_eq.
+      apply okle_seq; [apply okle_nest|]. apply okle_seq; [apply okle_refl|]. cbv zeta.
+      destruct (v_item v).
+      + apply (okle_fun (fun s0 => seq (guard (loop_exceeded v lim (f_copy f (sum_sizes (s_locals s0))) n) XLoop)
+                                       (iter 1 (N.to_nat n) (fun _ => in_ctx (partial v Strict lim body (f_scale v (f_copy f (sum_sizes (s_locals s0))) n)))))
+                        (fun s0 => seq (guard (loop_exceeded v lim (f_copy f (sum_sizes (s_locals s0))) n) XLoop)
+                                       (iter 1 (N.to_nat n) (fun _ => in_ctx (partial v md lim body (f_scale v (f_copy f (sum_sizes (s_locals s0))) n)))))).
+        intro s0. apply okle_seq; [apply okle_refl|]. apply okle_iter. intro k. apply okle_in_ctx. apply ma_partial; exact IH.
+      + apply (okle_fun (fun s0 => seq (guard (loop_exceeded v lim (f_copy f (sum_sizes (s_locals s0))) n) XLoop)
+                                       (in_ctx (iter 1 (N.to_nat n) (fun _ => partial v Strict lim body (f_scale v (f_copy f (sum_sizes (s_locals s0))) n)))))
+                        (fun s0 => seq (guard (loop_exceeded v lim (f_copy f (sum_sizes (s_locals s0))) n) XLoop)
+                                       (in_ctx (iter 1 (N.to_nat n) (fun _ => partial v md lim body (f_scale v (f_copy f (sum_sizes (s_locals s0))) n)))))).
+        intro s0. apply okle_seq; [apply okle_refl|]. apply okle_in_ctx. apply okle_iter. intro k. apply ma_partial; exact IH.
+    - intros body IH f. rewrite !exec_eq.
+      apply okle_seq; [apply okle_refl|].
+      apply (okle_fun (fun s0 => in_ctx (block v Strict lim body (f_copy f (sum_sizes (s_locals s0)))))
+                      (fun s0 => in_ctx (block v md lim body (f_copy f (sum_sizes (s_locals s0)))))).
+      intro s0. apply okle_in_ctx. apply ma_block; exact IH.
+    - intro f. split; apply okle_refl.
+    - intros x r IHx IHr f. split.
+      + rewrite !exec_list_cons. apply okle_seq; [apply IHx|apply IHr].
+      + rewrite !run_nodes_cons. apply okle_seq; [apply okle_handle; apply IHx|apply IHr].
+  Qed.
+
+  Lemma ma_exec_list : forall l, maQ l.
+  Proof.
+    induction l as [|x r IH]; intro f; [split; apply okle_refl|]. split.
+    - rewrite !exec_list_cons. apply okle_seq; [apply ma_exec|apply IH].
+    - rewrite !run_nodes_cons. apply okle_seq; [apply okle_handle; apply ma_exec|apply IH].
+  Qed.
+
+  Theorem run_mode_agreement main sizes s :
+    run_prog v Strict lim main sizes = LOk s -> run_prog v md lim main sizes = LOk s.
+  Proof.
+    unfold run_prog. intro H.
+    destruct (nest_guard Strict lim main (st0 sizes)) as [s1|e s1|] eqn:G; try discriminate.
+    rewrite (okle_nest main _ _ G). apply (ma_partial main (ma_exec_list main) frame0 s1 s H).
+  Qed.
+End ModeAgreement.
